@@ -32,7 +32,10 @@ Inductive obs :=
 | O405 (allow : list str)
 | O400
 | OErr (status : N)
-| OPanic.
+| OPanic
+  (* 200 to a HEAD request read off the wire: the echo body is not sent, only
+     the fact that an endpoint answered is observed *)
+| OFoundHead.
 
 Inductive rcase :=
 | CTable (eps : list (str * ep)) (codes : list N)
@@ -77,6 +80,7 @@ Definition obs_is_outcome (o : obs) (m : outcome N) : bool :=
   | OFound id vars ct mb, Found e vs =>
       str_eqb id (e_id e) && vars_eqb vars vs && (ct =? e_ctype e)
       && option_eqb N.eqb mb (e_maxbytes e)
+  | OFoundHead, Found _ _ => true
   | O404, E404 => true
   | O405 a, E405 a' => list_eqb str_eqb a a'
   | OPanic, EPanic => true
@@ -89,6 +93,7 @@ Definition obs_is_expected (o : obs) (x : expected N) : bool :=
   | OFound id vars ct mb, XFound d vs =>
       str_eqb id (e_id (snd d)) && vars_eqb vars vs && (ct =? e_ctype (snd d))
       && option_eqb N.eqb mb (e_maxbytes (snd d))
+  | OFoundHead, XFound _ _ => true
   | O404, X404 => true
   | O405 a, X405 a' => list_eqb str_eqb a a'
   | _, _ => false
@@ -171,7 +176,7 @@ Fixpoint accepted_impl (eps : list (str * ep)) (codes : list N) : option (list (
   | _, _ => Some []
   end.
 
-Definition is_found (o : obs) : bool := match o with OFound _ _ _ _ => true | _ => false end.
+Definition is_found (o : obs) : bool := match o with OFound _ _ _ _ | OFoundHead => true | _ => false end.
 Definition x_found (x : expected N) : bool :=
   match x with XFound _ _ | XAmbiguous => true | _ => false end.
 
@@ -368,7 +373,7 @@ Definition judge_pipe_req (which : N) (pol : policy N) (parse : str -> option N)
             match r with
             | Some r =>
                 match handle N ncmp parse pol r m p h, o with
-                | HInvoke e vs _, OFound _ _ _ _ => if obs_is_outcome o (Found e vs) then V_AGREE else V_DIVERGE
+                | HInvoke e vs _, OFound _ _ _ _ | HInvoke e vs _, OFoundHead => if obs_is_outcome o (Found e vs) then V_AGREE else V_DIVERGE
                 | HNotFound, O404 => V_AGREE
                 | HNotAllowed a, O405 a' => if list_eqb str_eqb a' a then V_AGREE else V_DIVERGE
                 | _, _ => V_DIVERGE
